@@ -89,17 +89,22 @@ def check_transition(hist, op, cfg):
     sims = [i for i, o in enumerate(full) if o in SIM_OPS]
     k = sims[-1] if sims else 0
     live, obs_live = build(full, cfg)
-    ref, obs_ref = build(full[k:], cfg)
+    # the reference object executes only the latest simulate, the *recovery* calls made after it
+    # (interpolator calls are pure reads and are dropped) and the call under observation
+    ref_hist = [o for i, o in enumerate(full[k:]) if i == 0 or o != "interp"]
+    if op == "interp" and len(full) - k > 1:
+        ref_hist.append(op)
+    ref, obs_ref = build(ref_hist, cfg)
     out = []
     if not obs_equal(obs_live[-1], obs_ref[-1]):
         out.append(V("stale-state/returned-value",
                      f"after history {full} the last call observes {_short(obs_live[-1], obs_ref[-1])}; a fresh "
-                     f"object running only {full[k:]} observes {_short(obs_ref[-1], obs_live[-1])}",
+                     f"object running only {ref_hist} observes {_short(obs_ref[-1], obs_live[-1])}",
                      case=case, observed=_short(obs_live[-1], obs_ref[-1]),
                      expected=_short(obs_ref[-1], obs_live[-1]), tol=0))
     elif not history.same(stored(live), stored(ref)) and obs_live[-1][0] != "raise":
         out.append(V("stale-state/stored-field",
-                     f"stored time/pseudopressure after {full} differ from a fresh object running {full[k:]}",
+                     f"stored time/pseudopressure after {full} differ from a fresh object running {ref_hist}",
                      case=case, tol=0))
     return out
 
